@@ -10,7 +10,7 @@ one() {
   ln -s /verif/known_findings.json "$vd/known_findings.json"; ln -s /verif/tools "$vd/tools"
   out="$d/.alarms.txt"; : > "$out"
   for p in C01 C02 C03 C04 C05 C06 C07 C08 C09 C10 C11 C12 C13 C14 C15 C16 C17 C18 C19; do
-    VERIF_REPO="$wt" VERIF_DIR="$vd" timeout 600 /verif/bin/jsverif check $p ${TIER:-quick} 2>&1 | grep -a "^VIOLATION" | cut -c1-500 >> "$out"
+    VERIF_REPO="$wt" VERIF_DIR="$vd" timeout 600 ${JSVERIF_BIN:-/verif/bin/jsverif} check $p ${TIER:-quick} 2>&1 | grep -a "^VIOLATION" | cut -c1-500 >> "$out"
   done
   git -C /repo worktree remove --force "$wt"; rm -rf "$vd"
   echo "$id alarms=$(wc -l < "$out")"
